@@ -17,6 +17,12 @@
 4. Lookups of two subtables that overlap on their keys are judged on their *effective* rules
    (first subtable wins, before and after subsetting and after Write+Read); rules may involve
    glyph 0 and cover every glyph (coverage tables of the subset start at 0, range format).
+6. Built-in encodings of simple CFF fonts whose glyphs carry StandardEncoding / ExpertEncoding names
+   (the predefined encoding, sub-encodings with a standard-named glyph left unencoded, permutations,
+   super-sets) must keep the meaning of every code in the subset and after Write+Read; degenerate
+   lists ([0], only unmapped glyphs, only glyphs outside one cmap subtable, only blank glyphs) are
+   part of every family.  If the library cannot decode the ORIGINAL font the harness built, the case
+   is recorded as skipped (note; exit 2 only above 20 %), the run continues.
 5. Size-boundary sweeps: concrete-only padding (copyright notice, glyph names, glyph programs,
    TrueType instructions) moves the String / CharStrings INDEX of the written subset through
    247..263 bytes (thorough: CharStrings also through 65527..65544) and its glyf table through
@@ -66,6 +72,7 @@ QUICK = [
 ]
 THOROUGH = [
     ("S", "FamS(4) \\cup FamS(5)"),
+    ("N", "FamN(4) \\cup FamN(5)"),
     ("T4", "FamT(4, 4, 0)"),
     ("T5", "FamT(5, 3, 1)"),
     ("L4", 'FamL(4, {"ttf", "cff"}, {1, 2, 3, 4})'),
@@ -98,6 +105,7 @@ CLAUSE_TEXT = {
 }
 
 _re_failed = re.compile(r'<<"FAILED", (\d+), "(\w+)", "([\w-]+)">>')
+_re_skipped = re.compile(r'<<"SKIPPED", (\d+), "(\w+)">>')
 
 
 def _mc_files(name, expr):
@@ -118,7 +126,7 @@ def _random_font(rng):
          "name": [(-1 if kind == "cid" else i) for i in g],
          "cid": [(-1 if kind != "cid" else (0 if i == 0 else 2 * i + 3)) for i in g],
          "fd": [(-1 if kind == "ttf" else (rng.randint(0, 2) if kind == "cid" else 0)) for i in g],
-         "comp": [[] for _ in g], "cmapcfg": "4", "cmap": [], "hasenc": False, "enc": [],
+         "comp": [[] for _ in g], "nameset": "plain", "cmapcfg": "4", "cmap": [], "hasenc": False, "enc": [],
          "gsub": "none", "ligs": [], "ligsplit": 0, "subs": [], "subs2": [],
          "gpos": False, "pairs": [], "pairs2": []}
     rng.shuffle(F["w"])
@@ -134,11 +142,13 @@ def _random_font(rng):
         for a in g:
             if not F["comp"][a] and rng.random() < 0.15:
                 F["out"][a] = -3
-    cfg = rng.choice(["4", "12", "4+12", "none"])
+    cfg = rng.choice(["4", "12", "4+12", "4|12", "none"])
     F["cmapcfg"] = cfg
     if cfg != "none":
         pool = list(range(33, 127)) + [0x20AC, 0x3042, 0xFFFD]
         pool = [c for c in pool if c not in (ord("f"), ord("i"), ord("l"))]
+        if cfg == "4|12":
+            pool = pool[:20]
         if cfg != "4":
             pool += [0x1F600, 0x1F601, 0x20000]
         codes = sorted(rng.sample(pool, rng.randint(0, min(2 * n, len(pool)))))
@@ -147,6 +157,27 @@ def _random_font(rng):
         F["hasenc"] = True
         codes = sorted(rng.sample(range(1, 256), rng.randint(0, n + 2)))
         F["enc"] = [[c, rng.randint(1, n - 1)] for c in codes]
+    if kind != "cid" and rng.random() < 0.5:
+        # glyph names from StandardEncoding / ExpertEncoding; the built-in encoding is a sub-encoding,
+        # a permutation or a super-set of the predefined one (code of token k: 64+k resp. 47+k)
+        F["nameset"] = rng.choice(["std", "expert"])
+        if kind == "cff":
+            base = 64 if F["nameset"] == "std" else 47
+            top = n - 1 if F["nameset"] == "std" else min(n - 1, 10)
+            enc = {}
+            mode = rng.choice(["exact", "sub", "sub", "perm", "super"])
+            for k in range(1, top + 1):
+                if mode in ("sub",) and rng.random() < 0.4:
+                    continue                      # a glyph with a predefined name, not encoded
+                enc[base + k] = k
+            if mode == "perm" and top >= 2:
+                a, b = rng.sample(range(1, top + 1), 2)
+                enc[base + a], enc[base + b] = b, a
+            if mode == "super":
+                enc[200] = rng.randint(1, n - 1)
+                enc[33] = rng.randint(1, n - 1)
+            F["hasenc"] = True
+            F["enc"] = [[c, enc[c]] for c in sorted(enc)]
     if rng.random() < 0.7:
         order = rng.choice(["l", "s", "ls", "sl"])
         F["gsub"] = order
@@ -260,7 +291,7 @@ def _small_lists(rng, count):
              "name": [(-1 if kind == "cid" else i) for i in g],
              "cid": [(-1 if kind != "cid" else (0 if i == 0 else 2 * i + 3)) for i in g],
              "fd": [(-1 if kind == "ttf" else (i % 3 if kind == "cid" else 0)) for i in g],
-             "comp": [[] for _ in g], "cmapcfg": "none", "cmap": [], "hasenc": False, "enc": [],
+             "comp": [[] for _ in g], "nameset": "plain", "cmapcfg": "none", "cmap": [], "hasenc": False, "enc": [],
              "gsub": "none", "ligs": [], "ligsplit": 0, "subs": [], "subs2": [],
              "gpos": False, "pairs": [], "pairs2": []}
         if kind == "ttf" and rng.random() < 0.6:       # one or two composites (extras behind the list)
@@ -283,7 +314,8 @@ def _plain(kind, n, dense=False):
          "name": [(-1 if kind == "cid" else i) for i in g],
          "cid": [(-1 if kind != "cid" else (0 if i == 0 else 2 * i + 3)) for i in g],
          "fd": [(-1 if kind == "ttf" else (i % 3 if kind == "cid" else 0)) for i in g],
-         "comp": [[] for _ in g], "cmapcfg": "4", "cmap": [[65 + i, i] for i in g[1:]], "hasenc": False, "enc": [],
+         "comp": [[] for _ in g], "nameset": "plain", "cmapcfg": "4", "cmap": [[65 + i, i] for i in g[1:]],
+         "hasenc": False, "enc": [],
          "gsub": "none", "ligs": [], "ligsplit": 0, "subs": [], "subs2": [],
          "gpos": False, "pairs": [], "pairs2": []}
     if dense:
@@ -354,6 +386,8 @@ def _judge(ctx, trace, label, ncases):
             failed.setdefault(int(m.group(1)), set()).add((m.group(2), m.group(3)))
         elif line.startswith('<<"FAILED"'):
             raise vlib.Infra("unparsable FAILED line from SubsetTrace: " + line[:200])
+        elif _re_skipped.match(line.strip()):
+            res.skipped = getattr(res, "skipped", 0) + 1
     return res, failed
 
 
@@ -399,6 +433,7 @@ def _run_cases(ctx, binp, cases, label, state):
     with state["lock"]:
         for part, (info, res, failed) in zip(parts, results):
             ctx.cov["evaluations"] += info["events"]
+            state["skipped"] += getattr(res, "skipped", 0)
             for kind, hist in (info.get("sizes") or {}).items():
                 for size in hist:
                     state["sizes"].setdefault(kind, set()).add(int(size))
@@ -499,6 +534,10 @@ def _replay_cases(ctx, wanted, tries=6):
 def _describe(case, ev, clause, events):
     F = case["f"]
     small = {k: v for k, v in F.items() if k not in ("out", "w", "name", "cid") and v not in ([], False, "none")}
+    if -3 in F["out"]:
+        small["blank glyphs"] = [g for g, o in enumerate(F["out"]) if o == -3]
+    if small.get("nameset") == "plain":
+        small.pop("nameset")
     if F["kind"] != "cid":
         small.pop("fd", None)
     obs = ""
@@ -538,7 +577,8 @@ def run(ctx):
             return orig_subdir(name)
     ctx.subdir = locked_subdir
     state = {"next_id": 0, "witness": {}, "count": {}, "lock": lock, "total": 0, "nontrivial": 0,
-             "par": 4, "tlc_workers": max(2, ctx.workers // 2), "sizes": {}}
+             "par": 4, "tlc_workers": max(2, ctx.workers // 2), "sizes": {},
+             "skipped": 0}
     jobs = [(lambda n=name, e=expr: _family(ctx, binp, n, e, state)) for name, expr in fams]
     jobs.insert(1, lambda: _random(ctx, binp, state))
     jobs.insert(1, lambda: _sweeps(ctx, binp, state))
@@ -558,6 +598,15 @@ def run(ctx):
                        "the identity list 0..n-1; evaluations = recorded events (subset / outlines subset / reread / "
                        "builder self-check) judged by SubsetTrace.tla; %d cases in total" % total_cases)
 
+    if state["skipped"]:
+        # not a verdict of this property: the library could not decode a font built from valid parts
+        ctx.notes.append("%d of %d cases were not judged: the library cannot inspect the ORIGINAL font the harness "
+                         "built (Write/Read or decoding of valid tables fails: the subject of C01/C09, not of C10)" % (
+                             state["skipped"], state["total"]))
+        ctx.log("NOTE: %d cases skipped, original font not inspectable by the library" % state["skipped"])
+        if state["skipped"] * 5 > state["total"]:
+            raise vlib.Infra("more than 20%% of the cases (%d of %d) could not be judged because the library cannot "
+                             "inspect the original fonts" % (state["skipped"], state["total"]))
     ctx.cov["bounds"]["written_subset_sizes_seen"] = {k: sorted(v) for k, v in state["sizes"].items()}
 
     # report: one reproduced witness per violated clause
